@@ -14,7 +14,7 @@ PROP = {
     "tool_files": ["tool_cachefacts.go"],
     "streams": [
         {"name": "meterhist", "driver": "drv_meterhist",
-         "quick": {"n": 40}, "thorough": {"n": 400, "seeds": 3},
+         "quick": {"n": 30}, "thorough": {"n": 400, "seeds": 3},
          "timeout": {"quick": 600, "thorough": 3000}},
     ],
     "exhaustive": False,
